@@ -40,6 +40,8 @@ def rewritings(rng, tree):
     out = [("baseline", mml.to_xml(tree))]
     out.append(("prefix-m", mml.to_xml(tree, prefix="m")))
     out.append(("prefix-mml-dq", mml.to_xml(tree, prefix="mml", quote='"')))
+    out.append(("prefix-ns0", mml.to_xml(tree, prefix="ns0")))                     # what Python's ElementTree and many serializers write
+    out.append(("prefix-odd-name", mml.to_xml(tree, prefix=rng.choice(["m_1", "_m", "m.x", "M-L", "a1b2", "x9"]), quote='"')))
     out.append(("double-quotes", mml.to_xml(tree, quote='"')))
     out.append(("no-ns-decl", mml.to_xml(tree, ns_decl=False)))
     junks = ["<!-- a comment -->", "<?proc inst?>", "\n  ", " ", "\t\n", "<!--<mi>z</mi>-->", "<!-- x -- y -->"[:0] + "<!-- &alpha; -->", ""]
@@ -93,7 +95,7 @@ def run(ctx):
     # ---- 1. correspondence of the rewriting model: generated strings, echoed through the parse-error message
     n_str = 1500 if ctx.tier == "quick" else 60000
     strings = [gen_string(rng) for _ in range(n_str)]
-    strings += [mml.to_xml(t, prefix=rng.choice(["", "m", "mml"])) for t in mml.corpus_basic()]
+    strings += [mml.to_xml(t, prefix=rng.choice(["", "m", "mml", "ns0", "m_1", "a.b-c"])) for t in mml.corpus_basic()]
     rep_i = im.run(pre + [{"op": "set_mathml", "xml": s + "<"} for s in strings], prelude=pre)[len(pre):]
     rep_m = mo.run([{"op": "preproc", "text": s + "<"} for s in strings])
     disagreements, branch = [], {"ok": 0, "unknown-entity": 0, "changed": 0}
